@@ -34,6 +34,7 @@ type ctxExtra struct {
 	entryArgs   map[string]Val
 	strict      bool
 	writes      map[string]bool
+	lockedOnce  map[string]bool
 	loopIndex   map[ast.Node]int
 	curLoop     ast.Node
 }
@@ -49,6 +50,7 @@ func newCtx(e *Engine, fi *FuncInfo) *Ctx {
 	c.typeTags = map[string]int{}
 	c.loopHavocFields = map[string]bool{}
 	c.writes = map[string]bool{}
+	c.lockedOnce = map[string]bool{}
 	if fi.Contract != nil {
 		c.props = fi.Contract.Props
 		c.bv = fi.Contract.ModeBV
@@ -359,7 +361,13 @@ func (env *Env) lockOp(recvExpr ast.Expr, op string, st *State, pos token.Pos) {
 					h := env.heapTerm(st, key, env.sortOf(ft))
 					nv := env.havoc(st, "locked_"+f, ft)
 					st.heap[key] = app("store", h, base.T, nv.T)
+					// old(...) of a guarded field means its value when the lock was acquired:
+					// the method's atomic transition starts there (monitor argument)
+					if c.inlineTag == "" && c.entry != nil && !c.lockedOnce[tok] {
+						c.entry.heap[key] = st.heap[key]
+					}
 				}
+				c.lockedOnce[tok] = true
 			}
 			for _, inv := range ts.LockInv[mu] {
 				st.assume(ie(st).evalBool(inv.Expr, st))
